@@ -45,6 +45,13 @@ def gen_decode(tier, rnd):
             buf = bytes(rnd.choice([0, 1, 0x7f, 0x55, 0x2a]) for _ in range(n - 3)) + bytes(rnd.choice(ALPHA3) for _ in range(3))
             off = rnd.randrange(0, n); lim = rnd.randrange(off + 1, n + 1)
             fam.append((buf, off, lim))
+    # the cursor already AT or PAST the limit when the decoder is called (a caller that advanced it by a declared size first, as
+    # the preface parser does with an optional element): nothing may be read, the call fails
+    for n in (1, 2, 8, 11):
+        for pat in (bytes([0x81] * n), bytes([0x00] * (n - 1) + [0x80]), bytes([0x7f] * n)):
+            for lim in sorted({n, max(0, n - 1), 0}):
+                for d in (0, 1, 2, 9, 10, 11, 24):
+                    fam.append((pat, lim + d, lim))
     # boundary values of the int destination: 2^31-1, 2^31, 2^32-1, 2^32, 2^32+1, 2^63, 2^64-1 (canonical encodings)
     from ..ref import ci_enc
     for v in [2**31 - 1, 2**31, 2**32 - 1, 2**32, 2**32 + 1, 2**35 - 1, 2**35, 2**62, 2**63 - 1, 2**63, 2**64 - 1]:
